@@ -359,6 +359,39 @@ fn all_strings(alpha: &[u8], maxlen: usize, f: &mut dyn FnMut(&[u8])) {
     rec(alpha, maxlen, &mut vec![], f);
 }
 
+/// snapshot round trip THROUGH a key type: the map is ordered by K's own order, which for the little-endian
+/// integer keys is not the order of the encoded bytes
+fn snapshot_roundtrip<K: KeyBytes + Ord + Clone + std::fmt::Debug>(name: &str, vals: Vec<K>, out: &mut Out) {
+    let mut map: BTreeMap<K, IndexStateItem> = BTreeMap::new();
+    for (i, v) in vals.iter().enumerate() {
+        map.insert(v.clone(), IndexStateItem { blob_hash: BlobHash::from_bytes([i as u8; 32]), blob_size: i as u64 * 1000 });
+    }
+    let enc = verif::codec_serialize_index(&map, NonZeroU64::new(7));
+    let r = catch_unwind(|| verif::codec_deserialize_index(&enc));
+    let (st, same) = match r {
+        Err(_) => ("panic".to_string(), false),
+        Ok(Err(e)) => (format!("err:{}", err_kind(&e)), false),
+        Ok(Ok((dec, ver))) => {
+            let back: Option<BTreeMap<K, IndexStateItem>> =
+                dec.iter().map(|(kb, it)| K::from_key_bytes(kb).map(|k| (k, *it))).collect();
+            ("ok".to_string(), back.as_ref() == Some(&map) && ver == NonZeroU64::new(7))
+        }
+    };
+    out.emit(&json!({"ev": "snaprt", "kt": name, "n": map.len(), "st": st, "same": same}));
+    // the same entries written in DESCENDING key-byte order are a valid snapshot too (the format has no order rule)
+    let mut ents: Vec<(Vec<u8>, IndexStateItem)> = map.iter().map(|(k, it)| (k.to_key_bytes().as_ref().to_vec(), *it)).collect();
+    ents.sort_by(|a, b| b.0.cmp(&a.0));
+    let mut bytes = 7u64.to_le_bytes().to_vec();
+    bytes.extend((ents.len() as u32).to_le_bytes());
+    for (k, it) in &ents {
+        bytes.extend((k.len() as u32).to_le_bytes());
+        bytes.extend(k);
+        bytes.extend(it.blob_hash.as_bytes());
+        bytes.extend(it.blob_size.to_le_bytes());
+    }
+    out.emit(&dec_snap_line(&bytes, "descending"));
+}
+
 fn key_roundtrip<K: KeyBytes + PartialEq + std::fmt::Debug>(name: &str, vals: Vec<K>, out: &mut Out) {
     for v in vals {
         let b = v.to_key_bytes().as_ref().to_vec();
@@ -579,6 +612,18 @@ pub fn run_codec(scratch: &Path, out: &mut Out, tier: &str, seed: u64) {
     key_roundtrip::<i64>("i64", vec![i64::MIN, -1, 0, i64::MAX], out);
     key_roundtrip::<u128>("u128", vec![0, 1 << 100, u128::MAX], out);
     key_roundtrip::<i128>("i128", vec![i128::MIN, -1, 0, i128::MAX], out);
+    snapshot_roundtrip::<String>("String", vec![String::new(), "a".into(), "b".into(), "é".into()], out);
+    snapshot_roundtrip::<Vec<u8>>("Vec<u8>", vec![vec![], vec![0], vec![0, 0], vec![255]], out);
+    snapshot_roundtrip::<[u8; 4]>("[u8;4]", vec![[0; 4], [0, 0, 0, 1], [0, 1, 0, 0], [255; 4]], out);
+    snapshot_roundtrip::<u8>("u8", vec![0, 1, 255], out);
+    snapshot_roundtrip::<u16>("u16", vec![0, 1, 255, 256, u16::MAX], out);
+    snapshot_roundtrip::<i16>("i16", vec![i16::MIN, -1, 0, 1, i16::MAX], out);
+    snapshot_roundtrip::<u32>("u32", vec![0, 1, 256, 65536, u32::MAX], out);
+    snapshot_roundtrip::<i32>("i32", vec![i32::MIN, -256, -1, 0, 1, 256], out);
+    snapshot_roundtrip::<u64>("u64", vec![0, 1, 256, 1 << 40, u64::MAX], out);
+    snapshot_roundtrip::<i64>("i64", vec![i64::MIN, -5, -1, 0, 7, i64::MAX], out);
+    snapshot_roundtrip::<u128>("u128", vec![0, 1, 256, 1 << 64, u128::MAX], out);
+    snapshot_roundtrip::<i128>("i128", vec![i128::MIN, -1, 0, 1, i128::MAX], out);
     // wrong-length encodings are rejected, not mis-decoded
     out.emit(&json!({"ev": "keyrej", "u32_3": u32::from_key_bytes(&[1, 2, 3]).is_none(), "u32_5": u32::from_key_bytes(&[1, 2, 3, 4, 5]).is_none(),
                      "arr4_3": <[u8; 4]>::from_key_bytes(&[1, 2, 3]).is_none(), "str_bad_utf8": String::from_key_bytes(&[0xff, 0xfe]).is_none()}));
